@@ -117,10 +117,11 @@ def ppo_ref(c, logits, values, ddof=0, kappa=0.5, value_rule="max"):
     r = np.exp(logr)
     if c["normalize"]:
         adv = normalise(adv, ddof)
-    pol = -np.mean(np.minimum(r * adv, np.clip(r, 1 - EPS, 1 + EPS) * adv))
+    eps = c.get("eps", EPS)
+    pol = -np.mean(np.minimum(r * adv, np.clip(r, 1 - eps, 1 + eps) * adv))
     e_u = (values - ret) ** 2
     if c["clip_value"]:
-        vc = old_v + np.clip(values - old_v, -EPS, EPS)
+        vc = old_v + np.clip(values - old_v, -eps, eps)
         e_c = (vc - ret) ** 2
         err = np.maximum(e_u, e_c) if value_rule == "max" else np.minimum(e_u, e_c)
     else:
@@ -168,8 +169,8 @@ def numgrad(f, logits, values, h=1e-6):
 _REAL = {}
 
 
-def real_loss(algo, B, normalize, clip_value):
-    k = (algo, B, normalize, clip_value)
+def real_loss(algo, B, normalize, clip_value, eps=EPS):
+    k = (algo, B, normalize, clip_value, eps)
     if k not in _REAL:
         if algo == "PPO":
 
@@ -178,7 +179,7 @@ def real_loss(algo, B, normalize, clip_value):
                 def one(lg, v, act, adv, ret, old_lp, old_v, cv, ce):
                     pol = TabularAC(lg, v)
                     buf = make_buffer(B, act, adv, ret, old_lp, old_v)
-                    (loss, st), g = PPO.ppo_loss_grad(pol, buf, normalize, EPS, clip_value, cv, ce)
+                    (loss, st), g = PPO.ppo_loss_grad(pol, buf, normalize, eps, clip_value, cv, ce)
                     return dict(total=loss, stats_total=st.total_loss, policy=st.policy_loss, value=st.value_loss, entropy=st.entropy_loss, kl=st.approx_kl, g_logits=g.logits, g_values=g.values)
 
                 return jax.vmap(one)(lg, v, act, adv, ret, old_lp, old_v, cv, ce)
@@ -231,14 +232,14 @@ def clause_loss(cases, ctx: Ctx):
     out = []
     groups = {}
     for i, c in enumerate(cases):
-        groups.setdefault((c["algo"], len(c["act"]), c["normalize"], c["clip_value"]), []).append(i)
-    for (algo, B, nz, cvf), idxs in groups.items():
+        groups.setdefault((c["algo"], len(c["act"]), c["normalize"], c["clip_value"], c.get("eps", EPS)), []).append(i)
+    for (algo, B, nz, cvf, eps_g), idxs in groups.items():
         mats = [materialise(cases[i]) for i in idxs]
         lg = np.stack([m[0] for m in mats])
         v = np.stack([m[1] for m in mats])
         cs = [m[2] for m in mats]
         arr = lambda k: np.asarray([c[k] for c in cs])
-        res = real_loss(algo, B, nz, cvf)(jnp.asarray(lg, float), jnp.asarray(v, float), jnp.asarray(arr("act")), jnp.asarray(arr("adv"), float),
+        res = real_loss(algo, B, nz, cvf, eps_g)(jnp.asarray(lg, float), jnp.asarray(v, float), jnp.asarray(arr("act")), jnp.asarray(arr("adv"), float),
                                         jnp.asarray(arr("ret"), float), jnp.asarray(arr("old_lp"), float), jnp.asarray(arr("old_v"), float),
                                         jnp.asarray(arr("cv"), float), jnp.asarray(arr("ce"), float))
         res = {k: np.asarray(x, dtype=np.float64) for k, x in res.items()}
@@ -264,7 +265,7 @@ def clause_loss(cases, ctx: Ctx):
                 ok = True
                 chosen = (ddof, kappa, r)
                 break
-            desc = f"{algo} B={B} act={c['act']} adv={c['adv']} ratio={c['ratio']} v={c['v']} old_v={c['old_v']} ret={c['ret']} normalize={c['normalize']} clip_value={c['clip_value']} cv={c['cv']} ce={c['ce']}"
+            desc = f"{algo} B={B} clip_coefficient={eps_g} act={c['act']} adv={c['adv']} ratio={c['ratio']} v={c['v']} old_v={c['old_v']} ret={c['ret']} normalize={c['normalize']} clip_value={c['clip_value']} cv={c['cv']} ce={c['ce']}"
             if not ok and grad_fail is not None:
                 gl, gv = grad_fail
                 out.append((idxs[n], f"C08/{algo.lower()}/gradient", f"{desc}: gradient logits {res['g_logits'][n].tolist()} values {res['g_values'][n].tolist()}; reference {gl.tolist()} {gv.tolist()}"))
@@ -291,7 +292,7 @@ def clause_loss(cases, ctx: Ctx):
                 if algo == "PPO" and c["cv"] == 0 and c["ce"] == 0:
                     rr, aa = r["r"], r["adv"]
                     for i in range(B):
-                        clipped_out = (rr[i] > 1 + EPS and aa[i] > 0) or (rr[i] < 1 - EPS and aa[i] < 0)
+                        clipped_out = (rr[i] > 1 + eps_g and aa[i] > 0) or (rr[i] < 1 - eps_g and aa[i] < 0)
                         gnorm = np.abs(res["g_logits"][n][i]).max()
                         if clipped_out:
                             ctx.guard("support-clipped-out-rows")
@@ -303,7 +304,7 @@ def clause_loss(cases, ctx: Ctx):
                                 out.append((idxs[n], "C08/ppo/gradient-support/active-sample-has-no-gradient", f"{desc}: row {i} ratio {rr[i]:.3f} advantage {aa[i]:.3f} contributes no policy gradient"))
             if algo == "PPO" and c["clip_value"]:
                 e_u = (v64 - np.asarray(c["ret"])) ** 2
-                vc = np.asarray(c["old_v"]) + np.clip(v64 - np.asarray(c["old_v"]), -EPS, EPS)
+                vc = np.asarray(c["old_v"]) + np.clip(v64 - np.asarray(c["old_v"]), -eps_g, eps_g)
                 e_c = (vc - np.asarray(c["ret"])) ** 2
                 ctx.guard("value-clipped-larger", int((e_c > e_u + 1e-9).sum()))
                 ctx.guard("value-clipped-smaller", int((e_c < e_u - 1e-9).sum()))
@@ -458,6 +459,12 @@ def explore(ctx: Ctx):
     if thorough:
         for rs in itertools.product(rows_g[::4], repeat=4):
             add("PPO", list(rs), True, True, 1.0, 0.01, False)
+    # a second clip coefficient (0.4): ratios .79/.81/1.19/1.21 now lie INSIDE the interval, 0.5 and 2.0 outside;
+    # value changes of 0.1 inside, 0.5 outside
+    for r1, r2 in itertools.product(rows_g, repeat=2):
+        for cvf in (False, True):
+            cases.append(dict(cases[0], act=[0, 1], adv=[r1[0], r2[0]], ratio=[r1[1], r2[1]], v=[r1[2], r2[2]], old_v=[0.0, 0.0], ret=[r1[3], r2[3]],
+                              normalize=False, clip_value=cvf, cv=0.5, ce=0.0, grad=True, eps=0.4))
     # A2C / REINFORCE: log-prob objective (the ratio entry only fixes the stored log-prob, which they must ignore)
     for algo in ("A2C", "REINFORCE"):
         for rw in rows[:: (1 if thorough else 4)]:
